@@ -1,312 +1,257 @@
 """What MANIFEST.json claims, per property. Only implemented rules are claimed."""
 
 NOTES = (
-    "Technique family: static analysis only. Every check re-parses /repo's "
-    "working tree (Python ast, clang JSON AST for the Linux C sources) and never "
-    "imports or runs psutil. A claimed property means: the named structural "
-    "clauses - each a necessary condition of the behaviour - are decided for "
-    "every call site / path / handler / table row on the current tree; the "
-    "behavioural statement as a whole is not proved. exit 2 + ANALYSIS-ERROR "
-    "means the analysis could not give a verdict (never a VIOLATION)."
+    "Technique family: static analysis only. Every check re-parses /repo's working tree (Python ast, clang JSON AST for the Linux C sources) and never imports or runs psutil. A claimed property means: the named structural clauses - each a necessary condition of the behaviour - are decided for every call site / path / handler / table row on the current tree; the behavioural statement as a whole is not proved. exit 2 + ANALYSIS-ERROR means the analysis could not give a verdict (never a VIOLATION)."
 )
 
-CLAIMED = {
-    "C01": {
-        "text": "Decides, for every public psutil.Process/Popen method and public "
-                "module function on each of 8 platform configurations, that no "
-                "call-graph path reaches a signal/setter sink (os.kill, setpriority, "
-                "ioprio/affinity/rlimit setters, Windows kill/suspend/priority "
-                "natives) without executing self._raise_if_pid_reused(); that every "
-                "os.kill target is provably != 0 and >= 0 (guards, callers, "
-                "single-writer invariant of the pid attribute); that sinks receive "
-                "self.pid and the caller's value (SIGSTOP/SIGCONT/SIGTERM/SIGKILL "
-                "for the fixed-signal methods); that _gone/_pid_reused are sticky; "
-                "that the guard compares identities; and that Popen cannot bypass "
-                "it. Necessary structural conditions only: the check-to-kill window "
-                "and creation-time granularity are run-time facts and not decided.",
-        "note": "Trusted: Python's ast; my CFG/dominator construction; the sink "
-                "table (natives named set*/kill/suspend/resume, os.kill, "
-                "resource.prlimit with 3 args); callee resolution of psutil's idioms "
-                "(self._proc.X, _psplatform.X, decorators ignored).",
-        "technique": "CFG dominance + call-graph must-pass-through, backward "
-                     "precondition propagation, def-use",
-    },
-    "C03": {
-        "text": "Decides that no FileNotFoundError/ProcessLookupError/PermissionError "
-                "raised by any per-process OS access site reachable from a Linux "
-                "Process method (platform layer and public front end) escapes "
-                "untranslated: an exception-escape fix-point over the resolved call "
-                "graph with Python's handler semantics, decorators analysed as their "
-                "wrappers. The translator's own table is evaluated class by class "
-                "(EACCES->AccessDenied, ESRCH/ENOENT->Zombie|NoSuchProcess, re-raise "
-                "only under the liveness probe), swallow-and-continue scanners are "
-                "checked path-sensitively for _raise_if_not_alive(), empty-content "
-                "returns for _raise_if_zombie(), and process_iter/ppid_map/is_running "
-                "for their per-PID policy. Parse errors on truncated content and "
-                "'every later query raises NoSuchProcess' are not decided.",
-        "note": "Trusted: primitive raise table (open/listdir/readlink/stat/kill/"
-                "prlimit/natives), class hierarchy table, callee resolution; fault "
-                "model limited to errno failures and zombie state as the property "
-                "states.",
-        "technique": "exception-escape effect analysis over the call graph + "
-                     "path-sensitive CFG dataflow",
-    },
-    "C05": {
-        "text": "Decides the structural conditions that make the tree walk right on "
-                "every ppid table: visited-set discipline dominating every work-list "
-                "push (termination on cycles), creation-time ordering and own-PID "
-                "exclusion control every result append, the identity guard precedes "
-                "the table read (children) and the parent lookup (via ppid), parent() "
-                "stops at the lowest PID and returns the parent only if it is not "
-                "younger, vanished children are skipped. Real recycling/time "
-                "granularity is not decided.",
-        "note": "Trusted: CFG/dominators; recognition of the work-list idiom "
-                "(while W: W.pop() ... W.append()).",
-        "technique": "CFG dominance / control dependence",
-    },
-    "C15": {
-        "text": "Decides: negative timeouts rejected before waiting; exit code memo "
-                "single-writer; in wait_pid a status is returned only under retpid != 0 "
-                "and None only after pid_exists() turned false; EINTR re-polls; the "
-                "deadline test precedes every sleep when a timeout is given and "
-                "TimeoutExpired(timeout, pid) is raised only under clock >= deadline; "
-                "the poll interval is 1e-4 .. 0.04 by induction on its only update; "
-                "WIFEXITED/WIFSIGNALED decoding; wait_procs' gone/alive bookkeeping. "
-                "How late a poll fires is a timing fact and is not decided.",
-        "note": "Trusted: CFG/dominators; sign-domain evaluation of guard predicates; "
-                "monotonic clock.",
-        "technique": "CFG dominance, path queries, interval induction",
-    },
-    "C16": {
-        "text": "Decides: activation/deactivation pairing through try/finally in "
-                "oneshot() and in all six platform modules (activated = deactivated = "
-                "decorated), only memoised readers open the per-process stat/status/"
-                "smaps records, the block runs under the object's lock and a nested "
-                "block is a no-op, the memoiser's three tolerance branches, as_dict's "
-                "validation-before-query, key set and exception policy. Thread "
-                "interleavings are not explored.",
-        "note": "Trusted: AST shape recognition of the memoiser; template matching of "
-                "f-string procfs paths.",
-        "technique": "typestate pairing, who-may-open, handler tables",
-    },
-    "C02": {
-        "text": "Decides that __eq__/__hash__/__ne__ are functions of the one identity "
-                "tuple, that the tuple and the cached creation time are never re-bound "
-                "after construction, and - by a transitive global-read / call effect "
-                "analysis of _get_ident() with constant-argument context - that the "
-                "Linux identity reads no module global that is re-assigned after import "
-                "and no wall-clock source (boot_time, time.time). is_running()'s sticky "
-                "early-False and publication of recycled PIDs. Start-time resolution and "
-                "real recycling are not decided.",
-        "note": "Trusted: the wall-clock source table (boot_time <- btime, time.time); "
-                "callee resolution; one level of constant-argument context.",
-        "technique": "effect analysis (transitive global reads/calls), single-writer "
-                     "attribute checks",
-    },
-    "C04": {
-        "text": "Decides: pids()/process_iter() order by def-use from sorted(); Linux "
-                "pids() digit filter; pid_exists() totality for ints via exception-"
-                "escape analysis (per-process errno and argument-conversion origins), "
-                "negative/zero handling by dominance; process_iter()'s cache steps "
-                "(copy, drop gone, drain recycled, add new, NoSuchProcess removes, "
-                "re-bind in a finally enclosing every yield, attrs -> .info, "
-                "cache_clear) and absence of in-place mutation of the published map. "
-                "Real table changes and thread schedules are not exercised.",
-        "note": "Trusted: primitive raise table; CFG/dominators; recognition of the "
-                "copy-then-rebind idiom.",
-        "technique": "def-use, exception-escape analysis, CFG dominance, try/finally "
-                     "enclosure",
-    },
-    "C10": {
-        "text": "Decides: every access to the three wrap-history maps holds the "
-                "instance lock (lexically or at every call site); the update rule has "
-                "the documented shape (reminder += OLD exactly under new < old, keyed "
-                "by (device, index); out = new + reminder; raw tuple for first call / "
-                "new key; new snapshot becomes the baseline on every later path); dead "
-                "devices purged before comparing; cache_clear covers all maps; "
-                "distinct constant history names bound consistently by the cache_clear "
-                "partials; nowrap=False bypass. From that shape monotonicity follows "
-                "by the inductive step recorded as an assumption; schedules are not "
-                "explored.",
-        "note": "Trusted: non-negative raw counters; the rule-template matcher; lock "
-                "coverage is lexical + call-site based.",
-        "technique": "lock-coverage analysis, CFG dominance, rule-template match",
-    },
-    "C06": {
-        "text": "Decides, by abstract interpretation of the Linux parsers into "
-                "provenance terms (file template / cut position / split / column), "
-                "that every parser of the `pid (comm) ...` record cuts at the LAST ')', "
-                "that each public field (cpu_times, ppid, status, terminal, "
-                "create_time, cpu_num, threads, ppid_map) reads the proc(5) column "
-                "assigned to it, that tick counters are divided by CLOCK_TICKS exactly "
-                "once and create_time adds seconds to seconds (unit analysis), that the "
-                "state-letter table covers the kernel's letters with the documented "
-                "constants, and - by static analysis of the regex literals (re._parser: "
-                "anchoring, minimum width vs. TASK_COMM_LEN) - that no status-file regex "
-                "can match inside the Name: line. Byte-level decoding of names is not "
-                "decided.",
-        "note": "Trusted: oracle tables transcribed from proc(5) / fs/proc/array.c "
-                "(sa/oracles/linux.py); the interpreter's supported subset (fails closed "
-                "with ANALYSIS-ERROR outside it); summaries of _common I/O helpers.",
-        "technique": "abstract interpretation (provenance terms, units), regex-literal "
-                     "static analysis, table agreement",
-    },
-    "C07": {
-        "text": "Decides, by abstract interpretation per kernel configuration (7-10 "
-                "CPU fields), that the scputimes fields are the kernel's columns in "
-                "kernel order read from the right /proc/stat lines and divided by "
-                "CLOCK_TICKS; that total/busy/deltas/cpu_percent have exactly the "
-                "documented rational forms (compared by cross-multiplication) and "
-                "that 0 <= busy <= total follows from sign analysis over clipped "
-                "deltas; cpu_times_percent's per-field share, rounding and clamp; "
-                "Process.cpu_percent == 100*dCPU/dWall with the CPU-count factors "
-                "cancelling, 0.0 first call, ValueError first, samples stored; "
-                "per-thread keys of the four history tables. Known finding: the "
-                "max(1, total) divisor of cpu_times_percent. Wall-clock behaviour is "
-                "not decided.",
-        "note": "Trusted: proc(5) cpu line layout; interpreter subset; clipped deltas "
-                "and kernel counters non-negative.",
-        "technique": "abstract interpretation (provenance, polynomial forms, sign "
-                     "analysis)",
-    },
-    "C08": {
-        "text": "Decides every svmem/sswap field against the documented formula as a "
-                "polynomial over /proc/meminfo keys (kB*1024), including the "
-                "used<0 fallback, percent via usage_percent, MemAvailable "
-                "absent-or-zero fallback and the two clamps, the KeyError policy and "
-                "warning, the watermark-based estimate (pages*PAGESIZE, two min terms) "
-                "and the unit of the swap-in/out page counters. Magnitudes and real "
-                "kernels are not exercised.",
-        "note": "Trusted: meminfo in kB, vmstat/zoneinfo in pages; interpreter subset.",
-        "technique": "abstract interpretation (provenance, polynomial forms, units)",
-    },
-    "C09": {
-        "text": "Decides, through the public front end and once per diskstats line "
-                "layout (14/18/20/7 fields, sysfs fallback; 15 only for totality), that "
-                "every snetio/sdiskio field is the kernel column the documentation "
-                "assigns to it, that only sector counters are scaled (by "
-                "DISK_SECTOR_SIZE = 512), that unknown layouts are rejected, that the "
-                "interface name ends at the LAST ':', that totals are field-wise sums "
-                "and partitions are skipped exactly when not perdisk, None/{} when "
-                "empty, and disk_usage's four formulas. Counter magnitudes are not "
-                "exercised.",
-        "note": "Trusted: iostats.rst / net/dev header tables (sa/oracles/linux.py); "
-                "interpreter subset; _wrap_numbers is bypassed (nowrap=False) - its "
-                "slot identity is C10's.",
-        "technique": "abstract interpretation per configuration (provenance, forms), "
-                     "control dependence",
-    },
-    "C13": {
-        "text": "Decides statm column/units for memory_info, key selection + kB*1024 + "
-                "tuple order of both smaps parsers and the roll-up fallback handler, "
-                "line-anchoring of the smaps regexes, the memory_maps tuple against the "
-                "named-tuple fields and smaps keys (bounded header split, [anon]), the "
-                "grouping slots and tuple compatibility on every platform, and "
-                "memory_percent's validation order and form.",
-        "note": "Trusted: proc(5) statm/smaps tables; interpreter subset.",
-        "technique": "abstract interpretation (provenance, forms), regex-literal "
-                     "analysis, table agreement",
-    },
-    "C14": {
-        "text": "Decides exhaustiveness of the access-mode table over the values its "
-                "mask can produce, the (access, O_APPEND) -> mode table by constant-"
-                "folded evaluation over the finite domain, the regular-file/absolute-"
-                "path filter as control dependence of the append, the errno skip "
-                "policy, provenance of position/flags(base 8)/fd/path, num_fds, and "
-                "the /proc/<pid>/io key table with its tolerance of blank/malformed "
-                "lines. Descriptors closing mid-scan are C03's.",
-        "note": "Trusted: os.O_* values for Linux (table in absint.OS_CONSTS), fdinfo "
-                "layout.",
-        "technique": "finite-domain exhaustiveness, abstract interpretation, control "
-                     "dependence",
-    },
-    "C11": {
-        "text": "Decides agreement of the Linux kind table with _common.conn_tmap (11 "
-                "kinds, (family,type) sets), validation-before-platform in both entry "
-                "points, the /proc/net column of every slot (laddr 1, raddr 2, state 3, "
-                "inode 9; unix type 4, inode 6, path 7 through a bounded split; header "
-                "skipped; port hexadecimal; port 0 -> ()), the TCP state table, NONE for "
-                "non-stream, owner/filter structure and the pconn/sconn slot order. "
-                "Hex/endianness address decoding is not decided.",
-        "note": "Trusted: /proc/net layouts and tcp_states.h (oracle tables); interpreter "
-                "subset.",
-        "technique": "table agreement, CFG dominance, abstract interpretation (provenance)",
-    },
-    "C12": {
-        "text": "Decides only structural necessary conditions: os.readlink's single "
-                "call site and the NUL / ' (deleted)' clean-up, exe()/cwd() fallback, "
-                "cmdline's separator choice / trailing-separator removal / zombie check, "
-                "parse_environ_block's stop-and-progress rule and its '=' test, the "
-                "guards of the name() extension and of the exe() guess, single-writer of "
-                "the exe cache. Separator heuristics on real argv data and byte decoding "
-                "are value-level and not decided.",
-        "note": "Trusted: TASK_COMM_LEN = 16; interpreter subset.",
-        "technique": "who-may-call, abstract interpretation, loop-progress rule, control "
-                     "dependence",
-    },
-    "C17": {
-        "text": "Decides, on clang's type-resolved AST of all 8 Linux translation units "
-                "(built with setup.py's own macros): every PyArg_ParseTuple/Py_BuildValue/"
-                "PyObject_CallFunction format agrees with the number and C types of its "
-                "arguments; fixed-width utmp fields never reach a NUL-expecting consumer "
-                "and every bounded consumer is bounded by sizeof of the same member; "
-                "strncpy/memset/sprintf into fixed arrays are bounded by the destination; "
-                "signed shifts/multiplications of parsed arguments are overflow-free on the interval "
-                "their exiting range checks leave; Py_DECREF/Py_INCREF never reach a PyObject* "
-                "that can still be the NULL it was initialised with (error labels); "
-                "setmntent/socket/CPU_ALLOC/getifaddrs resources are released exactly once "
-                "on every CFG path (goto/label/loops, null-test refinement); the C tuple "
-                "slots agree with suser/sdiskpart/snicaddr and the all=False filter. "
-                "Necessary conditions: not a proof of memory safety, and no sanitizer is "
-                "run (that is a different technique family).",
-        "note": "Trusted: clang's parser and type checker, the CPython format-unit table, "
-                "utmp(5) on which members are unterminated, my C CFG construction.",
-        "technique": "type-resolved AST rules (clang JSON), C CFG resource typestate, "
-                     "cross-language slot agreement",
-    },
-    "C18": {
-        "text": "Decides that the ValueError checks of ionice/rlimit/cpu_affinity dominate "
-                "the native setter call and hold on sampled boundary values (-1,0,7,8) by "
-                "evaluating the guard expression itself; that cpu_affinity([]) takes the "
-                "eligible-CPU set; that each get/set form passes self.pid and the caller's "
-                "values to the matching native and wraps the result in the documented type; "
-                "that the C ioprio pack and unpack use the same shift and mask and that the "
-                "affinity sizing loop frees before re-allocating and doubles only under the "
-                "overflow guard. 'Every other process unchanged' and the kernel's own "
-                "behaviour are run-time facts and not decided.",
-        "note": "Trusted: Python ast / clang AST, the constant evaluator for guard "
-                "predicates, native name table.",
-        "technique": "CFG dominance, predicate evaluation, AST constant agreement "
-                     "across C macros",
-    },
-    "C19": {
-        "text": "Decides units of every temperature/threshold (m°C/1000, including the "
-                "requirement that a loop-carried value is a unit fixed point), cpufreq "
-                "kHz/1000, the Fahrenheit form, per-entry OSError tolerance of reading-"
-                "file reads, threshold back-fill, battery percent/secsleft forms and the "
-                "UNLIMITED/UNKNOWN/None conventions, cpu_freq mean, cpu_count < 1 -> "
-                "None. Directory layouts of real hardware are not exercised.",
-        "note": "Trusted: sysfs ABI units by file suffix; interpreter subset.",
-        "technique": "abstract interpretation (units with loop fixed point, forms), "
-                     "handler inventory",
-    },
-    "C20": {
-        "text": "Decides, for the 7 non-Linux platform configurations whose code no "
-                "test here executes: exception-escape coverage of every Process method "
-                "(no ESRCH/EPERM/EACCES - and ENOENT on the procfs platforms - from a "
-                "call taking the object's pid escapes untranslated); the translator "
-                "matrix evaluated class by class per platform incl. the PID-0 clause and "
-                "(pid, name[, ppid]) payload; decorators applied to functions; documented "
-                "named tuple per method; one-shot map <-> C Py_BuildValue slot agreement "
-                "per #if configuration through a role table; no discarded pure-call "
-                "results in the front end; documentation Availability vs. the platform "
-                "evaluator. Non-Linux C is read textually only.",
-        "note": "Trusted: translator matrix / role tables in sa/oracles/platforms.py; "
-                "errno<->class mapping; the text extractor's #if evaluator; natives "
-                "taking the pid may raise ESRCH/EPERM/EACCES.",
-        "technique": "exception-escape analysis per platform, table evaluation, "
-                     "cross-language slot agreement by text extraction",
-    },
-}
+CLAIMED = {'C01': {'text': 'Decides, for every public psutil.Process/Popen method and public module function '
+                 'on each of 8 platform configurations, that no call-graph path reaches a '
+                 'signal/setter sink (os.kill, setpriority, ioprio/affinity/rlimit setters, '
+                 'Windows kill/suspend/priority natives) without executing '
+                 'self._raise_if_pid_reused(); that every os.kill target is provably != 0 and >= 0 '
+                 '(guards, callers, single-writer invariant of the pid attribute); that sinks '
+                 "receive self.pid and the caller's value (SIGSTOP/SIGCONT/SIGTERM/SIGKILL for the "
+                 'fixed-signal methods); that _gone/_pid_reused are sticky; that the guard '
+                 'compares identities; and that Popen cannot bypass it. Necessary structural '
+                 'conditions only: the check-to-kill window and creation-time granularity are '
+                 'run-time facts and not decided.',
+         'note': "Trusted: Python's ast; my CFG/dominator construction; the sink table (natives "
+                 'named set*/kill/suspend/resume, os.kill, resource.prlimit with 3 args); callee '
+                 "resolution of psutil's idioms (self._proc.X, _psplatform.X, decorators ignored).",
+         'technique': 'CFG dominance + call-graph must-pass-through, backward precondition '
+                      'propagation, def-use'},
+ 'C03': {'text': 'Decides that no FileNotFoundError/ProcessLookupError/PermissionError raised by '
+                 'any per-process OS access site reachable from a Linux Process method (platform '
+                 'layer and public front end) escapes untranslated: an exception-escape fix-point '
+                 "over the resolved call graph with Python's handler semantics, decorators "
+                 "analysed as their wrappers. The translator's own table is evaluated class by "
+                 'class (EACCES->AccessDenied, ESRCH/ENOENT->Zombie|NoSuchProcess, re-raise only '
+                 'under the liveness probe), swallow-and-continue scanners are checked '
+                 'path-sensitively for _raise_if_not_alive(), empty-content returns for '
+                 '_raise_if_zombie(), and process_iter/ppid_map/is_running for their per-PID '
+                 "policy. Parse errors on truncated content and 'every later query raises "
+                 "NoSuchProcess' are not decided. Also: the liveness probe used after ENOENT looks "
+                 'at <pid>/stat, not at the <pid> directory (which outlives its entries during '
+                 'teardown).',
+         'note': 'Trusted: primitive raise table '
+                 '(open/listdir/readlink/stat/kill/prlimit/natives), class hierarchy table, callee '
+                 'resolution; fault model limited to errno failures and zombie state as the '
+                 'property states.',
+         'technique': 'exception-escape effect analysis over the call graph + path-sensitive CFG '
+                      'dataflow'},
+ 'C05': {'text': 'Decides the structural conditions that make the tree walk right on every ppid '
+                 'table: visited-set discipline dominating every work-list push (termination on '
+                 'cycles), creation-time ordering and own-PID exclusion control every result '
+                 'append, the identity guard precedes the table read (children) and the parent '
+                 'lookup (via ppid), parent() stops at the lowest PID and returns the parent only '
+                 'if it is not younger, vanished children are skipped. Real recycling/time '
+                 'granularity is not decided. Also: parent() reaches Process(ppid) for ppid == 0 '
+                 "(only None means 'no parent').",
+         'note': 'Trusted: CFG/dominators; recognition of the work-list idiom (while W: W.pop() '
+                 '... W.append()).',
+         'technique': 'CFG dominance / control dependence'},
+ 'C15': {'text': 'Decides: negative timeouts rejected before waiting; exit code memo '
+                 'single-writer; in wait_pid a status is returned only under retpid != 0 and None '
+                 'only after pid_exists() turned false; EINTR re-polls; the deadline test precedes '
+                 'every sleep when a timeout is given and TimeoutExpired(timeout, pid) is raised '
+                 'only under clock >= deadline; the poll interval is 1e-4 .. 0.04 by induction on '
+                 "its only update; WIFEXITED/WIFSIGNALED decoding; wait_procs' gone/alive "
+                 'bookkeeping. How late a poll fires is a timing fact and is not decided.',
+         'note': 'Trusted: CFG/dominators; sign-domain evaluation of guard predicates; monotonic '
+                 'clock.',
+         'technique': 'CFG dominance, path queries, interval induction'},
+ 'C16': {'text': 'Decides: activation/deactivation pairing through try/finally in oneshot() and in '
+                 'all six platform modules (activated = deactivated = decorated), only memoised '
+                 'readers open the per-process stat/status/smaps records, the block runs under the '
+                 "object's lock and a nested block is a no-op, the memoiser's three tolerance "
+                 "branches, as_dict's validation-before-query, key set and exception policy. "
+                 'Thread interleavings are not explored. Read-once sources are resolved through '
+                 'string building and parameters (a reader opening <pid>/{fname} called with '
+                 "'smaps' counts).",
+         'note': 'Trusted: AST shape recognition of the memoiser; template matching of f-string '
+                 'procfs paths.',
+         'technique': 'typestate pairing, who-may-open, handler tables'},
+ 'C02': {'text': 'Decides that __eq__/__hash__/__ne__ are functions of the one identity tuple, '
+                 'that the tuple and the cached creation time are never re-bound after '
+                 'construction, and - by a transitive global-read / call effect analysis of '
+                 '_get_ident() with constant-argument context - that the Linux identity reads no '
+                 'module global that is re-assigned after import and no wall-clock source '
+                 "(boot_time, time.time). is_running()'s sticky early-False and publication of "
+                 'recycled PIDs. Start-time resolution and real recycling are not decided. Also: '
+                 'the gone latch is never set on a path that goes on to report ZombieProcess (a '
+                 'zombie is still listed), and a recycled verdict is published to process_iter() '
+                 'unconditionally.',
+         'note': 'Trusted: the wall-clock source table (boot_time <- btime, time.time); callee '
+                 'resolution; one level of constant-argument context.',
+         'technique': 'effect analysis (transitive global reads/calls), single-writer attribute '
+                      'checks'},
+ 'C04': {'text': 'Decides: pids()/process_iter() order by def-use from sorted(); Linux pids() '
+                 'digit filter; pid_exists() totality for ints via exception-escape analysis '
+                 '(per-process errno and argument-conversion origins), negative/zero handling by '
+                 "dominance; process_iter()'s cache steps (copy, drop gone, drain recycled, add "
+                 'new, NoSuchProcess removes, re-bind in a finally enclosing every yield, attrs -> '
+                 '.info, cache_clear) and absence of in-place mutation of the published map. Real '
+                 'table changes and thread schedules are not exercised. Also: on NetBSD/OpenBSD '
+                 'pid_exists() lets `pid in pids()` decide in the direction in which kill(pid, 0) '
+                 'is known to disagree with the listing; is_running() publishes every recycled '
+                 'verdict whatever the cache holds.',
+         'note': 'Trusted: primitive raise table; CFG/dominators; recognition of the '
+                 'copy-then-rebind idiom.',
+         'technique': 'def-use, exception-escape analysis, CFG dominance, try/finally enclosure'},
+ 'C10': {'text': 'Decides: every access to the three wrap-history maps holds the instance lock '
+                 '(lexically or at every call site); the update rule has the documented shape '
+                 '(reminder += OLD exactly under new < old, keyed by (device, index); out = new + '
+                 'reminder; raw tuple for first call / new key; new snapshot becomes the baseline '
+                 'on every later path); dead devices purged before comparing; cache_clear covers '
+                 'all maps; distinct constant history names bound consistently by the cache_clear '
+                 'partials; nowrap=False bypass. From that shape monotonicity follows by the '
+                 'inductive step recorded as an assumption; schedules are not explored. Also: no '
+                 'library function calls a cache_clear of the wrapper (the history is forgotten '
+                 "only at the caller's request).",
+         'note': 'Trusted: non-negative raw counters; the rule-template matcher; lock coverage is '
+                 'lexical + call-site based.',
+         'technique': 'lock-coverage analysis, CFG dominance, rule-template match'},
+ 'C06': {'text': 'Decides, by abstract interpretation of the Linux parsers into provenance terms '
+                 '(file template / cut position / split / column), that every parser of the `pid '
+                 "(comm) ...` record cuts at the LAST ')', that each public field (cpu_times, "
+                 'ppid, status, terminal, create_time, cpu_num, threads, ppid_map) reads the '
+                 'proc(5) column assigned to it, that tick counters are divided by CLOCK_TICKS '
+                 'exactly once and create_time adds seconds to seconds (unit analysis), that the '
+                 "state-letter table covers the kernel's letters with the documented constants, "
+                 'and - by static analysis of the regex literals (re._parser: anchoring, minimum '
+                 'width vs. TASK_COMM_LEN) - that no status-file regex can match inside the Name: '
+                 'line. Byte-level decoding of names is not decided.',
+         'note': 'Trusted: oracle tables transcribed from proc(5) / fs/proc/array.c '
+                 "(sa/oracles/linux.py); the interpreter's supported subset (fails closed with "
+                 'ANALYSIS-ERROR outside it); summaries of _common I/O helpers.',
+         'technique': 'abstract interpretation (provenance terms, units), regex-literal static '
+                      'analysis, table agreement'},
+ 'C07': {'text': 'Decides, by abstract interpretation per kernel configuration (7-10 CPU fields), '
+                 "that the scputimes fields are the kernel's columns in kernel order read from the "
+                 'right /proc/stat lines and divided by CLOCK_TICKS; that '
+                 'total/busy/deltas/cpu_percent have exactly the documented rational forms '
+                 '(compared by cross-multiplication) and that 0 <= busy <= total follows from sign '
+                 "analysis over clipped deltas; cpu_times_percent's per-field share, rounding and "
+                 'clamp; Process.cpu_percent == 100*dCPU/dWall with the CPU-count factors '
+                 'cancelling, 0.0 first call, ValueError first, samples stored; per-thread keys of '
+                 'the four history tables. Known finding: the max(1, total) divisor of '
+                 'cpu_times_percent. Wall-clock behaviour is not decided.',
+         'note': 'Trusted: proc(5) cpu line layout; interpreter subset; clipped deltas and kernel '
+                 'counters non-negative.',
+         'technique': 'abstract interpretation (provenance, polynomial forms, sign analysis)'},
+ 'C08': {'text': 'Decides every svmem/sswap field against the documented formula as a polynomial '
+                 'over /proc/meminfo keys (kB*1024), including the used<0 fallback, percent via '
+                 'usage_percent, MemAvailable absent-or-zero fallback and the two clamps, the '
+                 'KeyError policy and warning, the watermark-based estimate (pages*PAGESIZE, two '
+                 'min terms) and the unit of the swap-in/out page counters. Magnitudes and real '
+                 'kernels are not exercised. Also: no value looked up with .get() reaches '
+                 'arithmetic where it can still be None (decided on the interpreted result terms '
+                 'of virtual_memory() and swap_memory()).',
+         'note': 'Trusted: meminfo in kB, vmstat/zoneinfo in pages; interpreter subset.',
+         'technique': 'abstract interpretation (provenance, polynomial forms, units)'},
+ 'C09': {'text': 'Decides, through the public front end and once per diskstats line layout '
+                 '(14/18/20/7 fields, sysfs fallback; 15 only for totality), that every '
+                 'snetio/sdiskio field is the kernel column the documentation assigns to it, that '
+                 'only sector counters are scaled (by DISK_SECTOR_SIZE = 512), that unknown '
+                 "layouts are rejected, that the interface name ends at the LAST ':', that totals "
+                 'are field-wise sums and partitions are skipped exactly when not perdisk, None/{} '
+                 "when empty, and disk_usage's four formulas. Counter magnitudes are not "
+                 'exercised. Also: every record yielded by the per-line diskstats loop is built '
+                 'from names assigned on every path of that iteration (no counter inherited from '
+                 'the previous line); on macOS percent is computed from the corrected `used` that '
+                 'is reported.',
+         'note': 'Trusted: iostats.rst / net/dev header tables (sa/oracles/linux.py); interpreter '
+                 "subset; _wrap_numbers is bypassed (nowrap=False) - its slot identity is C10's.",
+         'technique': 'abstract interpretation per configuration (provenance, forms), control '
+                      'dependence'},
+ 'C13': {'text': 'Decides statm column/units for memory_info, key selection + kB*1024 + tuple '
+                 'order of both smaps parsers and the roll-up fallback handler, line-anchoring of '
+                 'the smaps regexes, the memory_maps tuple against the named-tuple fields and '
+                 'smaps keys (bounded header split, [anon]), the grouping slots and tuple '
+                 "compatibility on every platform, and memory_percent's validation order and form.",
+         'note': 'Trusted: proc(5) statm/smaps tables; interpreter subset.',
+         'technique': 'abstract interpretation (provenance, forms), regex-literal analysis, table '
+                      'agreement'},
+ 'C14': {'text': 'Decides exhaustiveness of the access-mode table over the values its mask can '
+                 'produce, the (access, O_APPEND) -> mode table by constant-folded evaluation over '
+                 'the finite domain, the regular-file/absolute-path filter as control dependence '
+                 'of the append, the errno skip policy, provenance of position/flags(base '
+                 '8)/fd/path, num_fds, and the /proc/<pid>/io key table with its tolerance of '
+                 "blank/malformed lines. Descriptors closing mid-scan are C03's.",
+         'note': 'Trusted: os.O_* values for Linux (table in absint.OS_CONSTS), fdinfo layout.',
+         'technique': 'finite-domain exhaustiveness, abstract interpretation, control dependence'},
+ 'C11': {'text': 'Decides agreement of the Linux kind table with _common.conn_tmap (11 kinds, '
+                 '(family,type) sets), validation-before-platform in both entry points, the '
+                 '/proc/net column of every slot (laddr 1, raddr 2, state 3, inode 9; unix type 4, '
+                 'inode 6, path 7 through a bounded split; header skipped; port hexadecimal; port '
+                 '0 -> ()), the TCP state table, NONE for non-stream, owner/filter structure and '
+                 'the pconn/sconn slot order. Hex/endianness address decoding is not decided.',
+         'note': 'Trusted: /proc/net layouts and tcp_states.h (oracle tables); interpreter subset.',
+         'technique': 'table agreement, CFG dominance, abstract interpretation (provenance)'},
+ 'C12': {'text': "Decides only structural necessary conditions: os.readlink's single call site and "
+                 "the NUL / ' (deleted)' clean-up, exe()/cwd() fallback, cmdline's separator "
+                 "choice / trailing-separator removal / zombie check, parse_environ_block's "
+                 "stop-and-progress rule and its '=' test, the guards of the name() extension and "
+                 'of the exe() guess, single-writer of the exe cache. Separator heuristics on real '
+                 'argv data and byte decoding are value-level and not decided.',
+         'note': 'Trusted: TASK_COMM_LEN = 16; interpreter subset.',
+         'technique': 'who-may-call, abstract interpretation, loop-progress rule, control '
+                      'dependence'},
+ 'C17': {'text': "Decides, on clang's type-resolved AST of all 8 Linux translation units (built "
+                 "with setup.py's own macros): every "
+                 'PyArg_ParseTuple/Py_BuildValue/PyObject_CallFunction format agrees with the '
+                 'number and C types of its arguments; fixed-width utmp fields never reach a '
+                 'NUL-expecting consumer and every bounded consumer is bounded by sizeof of the '
+                 'same member; strncpy/memset/sprintf into fixed arrays are bounded by the '
+                 'destination; signed shifts/multiplications of parsed arguments are overflow-free '
+                 'on the interval their exiting range checks leave; Py_DECREF/Py_INCREF never '
+                 'reach a PyObject* that can still be the NULL it was initialised with (error '
+                 'labels); setmntent/socket/CPU_ALLOC/getifaddrs resources are released exactly '
+                 'once on every CFG path (goto/label/loops, null-test refinement); the C tuple '
+                 'slots agree with suser/sdiskpart/snicaddr and the all=False filter. Necessary '
+                 'conditions: not a proof of memory safety, and no sanitizer is run (that is a '
+                 'different technique family). Fixed-width record fields may be passed to a helper '
+                 'of the extension only if every use of the pointer inside it is length-bounded by '
+                 'a parameter that the call binds to sizeof(field).',
+         'note': "Trusted: clang's parser and type checker, the CPython format-unit table, utmp(5) "
+                 'on which members are unterminated, my C CFG construction.',
+         'technique': 'type-resolved AST rules (clang JSON), C CFG resource typestate, '
+                      'cross-language slot agreement'},
+ 'C18': {'text': 'Decides that the ValueError checks of ionice/rlimit/cpu_affinity dominate the '
+                 'native setter call and hold on sampled boundary values (-1,0,7,8) by evaluating '
+                 'the guard expression itself; that cpu_affinity([]) takes the eligible-CPU set; '
+                 "that each get/set form passes self.pid and the caller's values to the matching "
+                 'native and wraps the result in the documented type; that the C ioprio pack and '
+                 'unpack use the same shift and mask and that the affinity sizing loop frees '
+                 "before re-allocating and doubles only under the overflow guard. 'Every other "
+                 "process unchanged' and the kernel's own behaviour are run-time facts and not "
+                 'decided.',
+         'note': 'Trusted: Python ast / clang AST, the constant evaluator for guard predicates, '
+                 'native name table.',
+         'technique': 'CFG dominance, predicate evaluation, AST constant agreement across C '
+                      'macros'},
+ 'C19': {'text': 'Decides units of every temperature/threshold (m°C/1000, including the '
+                 'requirement that a loop-carried value is a unit fixed point), cpufreq kHz/1000, '
+                 'the Fahrenheit form, per-entry OSError tolerance of reading-file reads, '
+                 'threshold back-fill, battery percent/secsleft forms and the '
+                 'UNLIMITED/UNKNOWN/None conventions, cpu_freq mean, cpu_count < 1 -> None. '
+                 'Directory layouts of real hardware are not exercised.',
+         'note': 'Trusted: sysfs ABI units by file suffix; interpreter subset.',
+         'technique': 'abstract interpretation (units with loop fixed point, forms), handler '
+                      'inventory'},
+ 'C20': {'text': 'Decides, for the 7 non-Linux platform configurations whose code no test here '
+                 'executes: exception-escape coverage of every Process method (no '
+                 'ESRCH/EPERM/EACCES - and ENOENT on the procfs platforms - from a call taking the '
+                 "object's pid escapes untranslated); the translator matrix evaluated class by "
+                 'class per platform incl. the PID-0 clause and (pid, name[, ppid]) payload; '
+                 'decorators applied to functions; documented named tuple per method; one-shot map '
+                 '<-> C Py_BuildValue slot agreement per #if configuration through a role table; '
+                 'no discarded pure-call results in the front end; documentation Availability vs. '
+                 'the platform evaluator. Non-Linux C is read textually only.',
+         'note': 'Trusted: translator matrix / role tables in sa/oracles/platforms.py; '
+                 "errno<->class mapping; the text extractor's #if evaluator; natives taking the "
+                 'pid may raise ESRCH/EPERM/EACCES.',
+         'technique': 'exception-escape analysis per platform, table evaluation, cross-language '
+                      'slot agreement by text extraction'}}
 
 NOT_APPLICABLE = {}
